@@ -19,11 +19,13 @@ pub fn run(ctx: &Ctx) -> Report {
     let counters = local.counters.clone();
     let g = |k: &str| counters.get(k).copied().unwrap_or(0);
     let mut inconclusive = vec![];
-    for pop in ["all", "decoys-on", "decoys-off"] {
+    for pop in ["all", "decoys-on", "decoys-off", "in-payload", "in-disclosed-value", "decoys-on.in-payload", "decoys-on.in-disclosed-value", "decoys-off.in-payload", "decoys-off.in-disclosed-value"] {
         let lists = g(&format!("order.{pop}.lists>=2real"));
         let inorder = g(&format!("order.{pop}.in-member-order"));
         if lists < 200 {
-            if ctx.only_case.is_none() {
+            // the three main populations must be large enough; sub-populations by location are
+            // judged only when they happen to contain >= 200 lists
+            if ctx.only_case.is_none() && !pop.contains("in-") {
                 inconclusive.push(format!("order clause: only {lists} qualifying _sd lists in population {pop} (< 200)"));
             }
         } else if inorder == lists {
@@ -36,16 +38,18 @@ pub fn run(ctx: &Ctx) -> Report {
             });
         }
     }
-    let wd = g("order.decoys-on.lists-with-decoy");
-    let dl = g("order.decoys-on.all-decoys-last");
-    if wd >= 200 && dl == wd {
-        local.violate(Violation {
-            subcheck: "order-leak-decoys-last".into(),
-            class: "decoys-on".into(),
-            observed: "every _sd list shows all decoys after all real digests".into(),
-            case: 0,
-            detail: json!({"lists_with_decoy": wd, "all_decoys_last": dl}),
-        });
+    for pop in ["decoys-on", "decoys-on.in-payload", "decoys-on.in-disclosed-value"] {
+        let wd = g(&format!("order.{pop}.lists-with-decoy"));
+        let dl = g(&format!("order.{pop}.all-decoys-last"));
+        if wd >= 200 && dl == wd {
+            local.violate(Violation {
+                subcheck: "order-leak-decoys-last".into(),
+                class: pop.into(),
+                observed: "every _sd list shows all decoys after all real digests".into(),
+                case: 0,
+                detail: json!({"lists_with_decoy": wd, "all_decoys_last": dl}),
+            });
+        }
     }
     let mut rep = Report::new(
         "exploration",
@@ -128,7 +132,8 @@ fn one_case(ctx: &Ctx, case: u64, l: &mut Local) {
                 continue;
             }
             let in_order = reals.windows(2).all(|w| w[0] < w[1]);
-            for pop in ["all", tagk] {
+            let loc = if list.in_disclosure { "in-disclosed-value" } else { "in-payload" };
+            for pop in ["all".to_string(), tagk.to_string(), loc.to_string(), format!("{tagk}.{loc}")] {
                 l.count(&format!("order.{pop}.lists>=2real"));
                 if in_order {
                     l.count(&format!("order.{pop}.in-member-order"));
@@ -136,9 +141,12 @@ fn one_case(ctx: &Ctx, case: u64, l: &mut Local) {
             }
             if decoys {
                 if let Some(first_decoy) = list.entries.iter().position(|e| e.is_none()) {
-                    l.count("order.decoys-on.lists-with-decoy");
-                    if list.entries[first_decoy..].iter().all(|e| e.is_none()) {
-                        l.count("order.decoys-on.all-decoys-last");
+                    let last = list.entries[first_decoy..].iter().all(|e| e.is_none());
+                    for pop in ["decoys-on".to_string(), format!("decoys-on.{loc}")] {
+                        l.count(&format!("order.{pop}.lists-with-decoy"));
+                        if last {
+                            l.count(&format!("order.{pop}.all-decoys-last"));
+                        }
                     }
                 }
             }
